@@ -206,6 +206,10 @@ def run(ck, facts):
         nparams = 0 if params.strip() in ("", "void") else len(params.split(","))
         ck.expect(nparams == len(f["inputs"]), "R3", "runtime.h/" + name, "%d params" % nparams, "%s has %d parameters in C and %d in Rust" % (name, nparams, len(f["inputs"])), C.loc(f))
 
+    # bridge structs: the C and C++ struct generators declare every field, in order (rule shared with C07 / C08)
+    import c07
+    c07.field_walk_rules(ck, "R3", facts, {"c", "cpp"})
+
     # ---------------- R4 argument order
     gm = tool.fn("c::ty::TyGenContext::gen_method")
     body = C.fn_body(gm)
